@@ -172,7 +172,8 @@ def _gram_cd_epoch(scaled_gram, w, grad, penalty, greedy_cd):
 
         # update w_j
         old_w_j = w[j]
-        step = 1 / scaled_gram[j, j]  # 1 / lipschitz_j
+        # 1 / lipschitz_j, with a fallback step for all-zero features
+        step = 1 / scaled_gram[j, j] if scaled_gram[j, j] != 0 else 1000
         w[j] = penalty.prox_1d(old_w_j - step * grad[j], step, j)
 
         # gradient update with Gram matrix
